@@ -15,7 +15,11 @@ Record witem := mkW { w_name : option str; w_ann : option str; w_d0 : str; w_con
 Inductive wsec :=
 | WText (lines : list str)
 | WItems (k : kind) (header : str) (title : option str) (items : list witem)
-| WAdm (header : str) (title : option str) (lines : list str).
+| WAdm (header : str) (title : option str) (lines : list str)
+(* a Returns / Yields / Receives section written for given option values: multi = *_multiple_items (false: one item, its
+   continuation lines at the indentation of its first line), named = *_named_value (false: `type: description` or a bare
+   description, no names) *)
+| WRet (multi named : bool) (k : kind) (header : str) (title : option str) (items : list witem).
 
 Definition oapp (o : option str) : str := match o with Some s => s | None => [] end.
 
@@ -51,6 +55,18 @@ Definition indent_line (n : nat) (c : str) : str := match c with [] => [] | _ =>
 Definition item_lines (ind : nat) (k : kind) (it : witem) : list str :=
   (spaces ind ++ first_line k it) :: map (indent_line (ind * 2)) (w_conts it).
 
+(* the first line of an item when items cannot be named: `type: description`, or the bare description *)
+Definition first_line_u (it : witem) : str :=
+  match w_ann it with
+  | Some a => a ++ colon :: dpart (w_d0 it)
+  | None => w_d0 it
+  end.
+
+Definition first_line_m (named : bool) (k : kind) (it : witem) : str := if named then first_line k it else first_line_u it.
+
+Definition item_lines_m (multi named : bool) (ind : nat) (k : kind) (it : witem) : list str :=
+  (spaces ind ++ first_line_m named k it) :: map (indent_line (if multi then ind * 2 else ind)) (w_conts it).
+
 Definition header_line (header : str) (title : option str) : str :=
   header ++ colon :: match title with Some t => sp :: t | None => [] end.
 
@@ -59,6 +75,7 @@ Definition render_sec (ind : nat) (s : wsec) : list str :=
   | WText ls => ls
   | WItems k h t its => header_line h t :: flat_map (item_lines ind k) its
   | WAdm h t ls => header_line h t :: map (indent_line ind) ls
+  | WRet m n k h t its => header_line h t :: flat_map (item_lines_m m n ind k) its
   end.
 
 (* sections are separated by one blank line *)
@@ -74,8 +91,9 @@ Definition orelse (a b : option str) : option str := match a with Some _ => a | 
 
 Definition gen_index_of (k : kind) : nat := match k with KYields => 0 | KReceives => 1 | _ => 2 end.
 
+(* blank lines at the end of the continuation lines set the item apart from the next one: they belong to no description *)
 Definition expect_item (c : pctx) (k : kind) (multiple : bool) (index : nat) (it : witem) : pitem :=
-  let d := join_nl (w_d0 it :: w_conts it) in
+  let d := join_nl (w_d0 it :: rstrip_blank (w_conts it)) in
   let n := oapp (w_name it) in
   match k with
   | KParams | KOther =>
@@ -100,6 +118,7 @@ Definition expect_sec (c : pctx) (s : wsec) : gsec :=
   | WText ls => GText (join_nl ls)
   | WItems k h t its => GItems k t (expect_items c k (negb (List.length its <=? 1)) 0 its)
   | WAdm h t ls => GAdm (dashify h) (match t with Some x => x | None => h end) (join_nl ls)
+  | WRet _ _ k h t its => GItems k t (expect_items c k (negb (List.length its <=? 1)) 0 its)
   end.
 
 Definition expect_google (c : pctx) (secs : list wsec) : list gsec := map (expect_sec c) secs.
@@ -115,6 +134,10 @@ Definition wf_cont (c : str) : bool := all_printable c && (negb (nonempty c) || 
 
 Definition wf_desc (d0 : str) (conts : list str) : bool :=
   all_printable d0 && first_not_space d0 && forallb wf_cont conts && last_nonempty conts.
+
+(* the description of an item: like wf_desc, but blank lines may follow it (they separate the item from the next one) *)
+Definition wf_idesc (d0 : str) (conts : list str) : bool :=
+  all_printable d0 && first_not_space d0 && forallb wf_cont conts && last_nonempty (rstrip_blank conts).
 
 Definition name_char (c : ascii) : bool := printable c && negb (ceq c sp) && negb (ceq c colon).
 Definition wf_name (n : str) : bool := nonempty n && forallb name_char n.
@@ -150,7 +173,7 @@ Definition opt_all (f : str -> bool) (o : option str) : bool := match o with Som
 Definition is_some {A} (o : option A) : bool := match o with Some _ => true | None => false end.
 
 Definition wf_item (k : kind) (it : witem) : bool :=
-  wf_desc (w_d0 it) (w_conts it) &&
+  wf_idesc (w_d0 it) (w_conts it) &&
   match k with
   | KParams | KOther | KAttrs => is_some (w_name it) && opt_all wf_name (w_name it) && opt_all wf_ann (w_ann it)
   | KFuncs | KClasses => is_some (w_name it) && opt_all wf_fname (w_name it) && opt_all wf_sigargs (w_ann it)
@@ -162,24 +185,74 @@ Definition wf_item (k : kind) (it : witem) : bool :=
   | _ => false
   end.
 
+(* the type of an item that cannot be named: no colon, and no parenthesis at either end (they are optional and removed) *)
+Definition wf_uann (a : str) : bool :=
+  nonempty a && all_printable a && first_not_space a && negb (contains_char colon a)
+  && negb (ceq (hd sp a) lparen) && negb (ceq (last a sp) rparen).
+
+(* an item of a Returns / Yields / Receives section in a given mode *)
+Definition wf_item_m (multi named : bool) (k : kind) (it : witem) : bool :=
+  (if named then wf_item k it
+   else wf_idesc (w_d0 it) (w_conts it) && negb (is_some (w_name it)) && opt_all wf_uann (w_ann it)
+        && (if is_some (w_ann it) then true else nonempty (w_d0 it) && negb (contains_char colon (w_d0 it))))
+  && (multi || last_nonempty (w_conts it)).
+
+Definition rkindb (k : kind) : bool := match k with KReturns | KYields | KReceives => true | _ => false end.
+
+(* the option values that govern a section kind *)
+Definition modes_of (o : gopts) (k : kind) : bool * bool :=
+  match k with
+  | KReceives => (rec_multi o, rec_named o)
+  | _ => (ret_multi o, ret_named o)
+  end.
+
 Definition wf_header (h : str) : bool :=
   all_printable h && match h with c :: _ => is_word c | [] => false end && forallb adm_char h.
 Definition wf_title (t : str) : bool := nonempty t && all_printable t && first_not_space t.
 
 Definition wf_text_line (l : str) : bool := all_printable l && first_not_space l && negb (is_fence l).
 
-Definition wf_sec (c : pctx) (s : wsec) : bool :=
+(* a line of free text that reads like `Title:` is only taken for a section title when one of the next two lines is
+   indented: inside free text that can happen under a code fence *)
+Definition adm_safe (l : str) (n1 n2 : option str) : bool :=
+  match re_admonition l with
+  | None => true
+  | Some _ => negb (indented_opt n1 || indented_opt n2)
+  end.
+
+(* the lines of a free-text section: outside code fences every line starts in its first column; between an opening fence
+   line and the next fence line anything printable goes (indentation, blank lines, section keywords); every fence is closed *)
+Fixpoint wf_tl (incode : bool) (tl : list str) : bool :=
+  match tl with
+  | [] => negb incode
+  | l :: r =>
+      all_printable l &&
+      (if incode then wf_tl (negb (is_fence l)) r
+       else first_not_space l &&
+            (if is_fence l then wf_tl true r
+             else adm_safe l (nth_error r 0) (nth_error r 1) && wf_tl false r))
+  end.
+
+Definition wf_sec (o : gopts) (c : pctx) (s : wsec) : bool :=
   match s with
-  | WText ls => nonempty (hd [] ls) && last_nonempty ls && forallb wf_text_line ls && match ls with [] => false | _ => true end
+  | WText ls => nonempty (hd [] ls) && last_nonempty ls && wf_tl false ls && match ls with [] => false | _ => true end
   | WItems k h t its =>
       wf_header h && opt_all wf_title t
       && match g_section_kind (lower h) with Some k' => kind_eqb k k' | None => false end
       && match its with [] => false | _ => true end
       && forallb (wf_item k) its
+      && (if rkindb k then let '(m, n) := modes_of o k in m && n else true)
   | WAdm h t ls =>
       wf_header h && opt_all wf_title t
       && match g_section_kind (lower h) with Some _ => false | None => true end
       && match ls with l0 :: r => nonempty l0 && wf_desc l0 r | [] => false end
+  | WRet m n k h t its =>
+      wf_header h && opt_all wf_title t
+      && match g_section_kind (lower h) with Some k' => kind_eqb k k' | None => false end
+      && match its with [] => false | _ => true end
+      && forallb (wf_item_m m n k) its
+      && rkindb k && (let '(m', n') := modes_of o k in Bool.eqb m m' && Bool.eqb n n')
+      && (m || (List.length its <=? 1))
   end.
 
 Definition is_text (s : wsec) : bool := match s with WText _ => true | _ => false end.
@@ -190,4 +263,4 @@ Fixpoint no_adjacent_text (secs : list wsec) : bool :=
   | _ => true
   end.
 
-Definition wf_secs (c : pctx) (secs : list wsec) : bool := forallb (wf_sec c) secs && no_adjacent_text secs.
+Definition wf_secs (o : gopts) (c : pctx) (secs : list wsec) : bool := forallb (wf_sec o c) secs && no_adjacent_text secs.
